@@ -206,7 +206,8 @@ func (t *runner) genParentCase(kind int) *cidCase {
 	switch kind {
 	case 0: // hand-made parents with overlapping ranges
 		csrs := []charcode.CodeSpaceRange{charcode.Simple, charcode.UCS2,
-			{{Low: []byte{0}, High: []byte{0x7f}}, {Low: []byte{0x80, 0}, High: []byte{0xff, 0xff}}}}
+			{{Low: []byte{0}, High: []byte{0x7f}}, {Low: []byte{0x80, 0}, High: []byte{0xff, 0xff}}},
+			leadingZeroCSRs[0], leadingZeroCSRs[2]}
 		cs := &cidCase{CSR: csrs[r.IntN(len(csrs))], Class: "handmade-parents"}
 		for i := r.IntN(3); i >= 0; i-- {
 			cs.Base = append(cs.Base, t.genBaseFile(cs.CSR, fmt.Sprintf("Verif-B%d", len(cs.Base)), true))
